@@ -67,11 +67,12 @@ Definition check_c09 (c : c09case) : Z :=
       if has_json_text p vs then 4 else
       corr (obytes_eqb (enc (kinds p) vs) b
             && match mdec p b with Ok vs' [] => fvs_eqb vs vs' | _ => false end)
+      (* the property on the implementation's own output, judged by the protocol table only (so
+         that a packet impl the translator cannot read any more is not by itself a failure) *)
       + moni (impl_ok
-              && wf_fields (kinds p) vs
               && match spec_kinds p with
-                 | Some ks => obytes_eqb (enc ks vs) b
-                 | None => true
+                 | Some ks => wf_fields ks vs && obytes_eqb (enc ks vs) b
+                 | None => wf_fields (kinds p) vs
                  end)
   | DEC p b r _ =>
       match mdec p b, r with
